@@ -340,3 +340,4 @@ def check(ctx, rep):
     _check_main(ctx, rep)
     shared.own_namespace_lookups(ctx, rep, "C09.NS")
     metarules.preparer_registration(ctx, rep, "C09.PREP")
+    metarules.parent_ctor_guard(ctx, rep, "C09.PAR")
